@@ -44,6 +44,21 @@ CHECKS = {
     },
 }
 
+CHECKS["C19"] = {
+    "engine": "bitmon",
+    "technique": "runtime monitoring: direct calls of the real bit-level functions compared online with the machine operations (exhaustive over all 65536 INTEGER values), plus the same primitives observed end to end through BASIC programs",
+    "text": "bitmon calls qb_and, qb_or, Variant::and/or/unary_not, i32_to_bytes, bytes_to_i32, f64_to_bytes, bytes_to_f64 under catch_unwind in the checked build: exhaustive for all unary/conversion cases over the 65536 INTEGER values and all byte pairs, structured and random operand pairs, all powers of two, boundary mantissas, subnormals, |x| >= 2^63 and random finite bit patterns. The Python shards run AND/OR/NOT, PEEK/POKE of an INTEGER variable and MKD$/CVD through the real pipeline.",
+    "note": "The CPU's integer and IEEE-754 operations are the oracle; doubles enter BASIC programs through CVD of their IEEE bytes.",
+    "design": "DESIGN.md section 2 C19",
+}
+CHECKS["C20"] = {
+    "engine": "pcmon",
+    "technique": "runtime monitoring: every sub-parser of real rusty_pc parsers wrapped in an observer that checks the backtracking/error contract online (position before, result class, position after), root result compared with a denotational model of the documented semantics; bounded-exhaustive expression enumeration over all inputs up to length 6",
+    "text": "Parser expressions over all primitives and combinators of rusty_pc (alphabet {a,b,c}, all 1093 inputs of length <= 6): exhaustive to depth 1 plus 3e5 random expressions of depth 2-4 in the quick tier (3e8 judged runs), depth-2 strata in a fixed order plus 2e6 random deeper expressions in the thorough tier (4e10 runs; the depth-2 space of 1.2e12 expressions cannot be completed and the evidence states the fraction reached). Divergence is handled with logical fuel on both sides.",
+    "note": "The model is written from the doc comments; where they are silent (position after a fatal error, which soft error a failed choice reports, and_then_err recovering after a moved child) the reading that makes the real code correct was taken, so those corners are not judged.",
+    "design": "DESIGN.md section 2 C20",
+}
+
 ALL = ["C%02d" % i for i in range(1, 21)]
 
 NOT_BUILT_REASON = "check not built yet in this round (design in DESIGN.md section 2); nothing is claimed for it"
